@@ -106,10 +106,12 @@ def node_wrapper(node, prop, seed, tier, known, ev, results):
     """main.js NonCacheRewriter/CacheRewriter around the real results: not modified -> the caller's text"""
     picks = []
     nm = mod = 0
-    for req, rec, v in results:
+    # the byte-level texts first (every one of them goes through the package)
+    ordered = [x for x in results if 'bytes' in x[0].get('tags', [])] + [x for x in results if 'bytes' not in x[0].get('tags', [])]
+    for req, rec, v in ordered:
         if rec.get('outcome') != 'ok':
             continue
-        if rec.get('status') == 'NotModified' and nm < 150:
+        if rec.get('status') == 'NotModified' and (nm < 150 or 'bytes' in req.get('tags', [])):
             nm += 1
             picks.append((req, rec))
         elif rec.get('status') == 'Modified' and mod < 80:
@@ -416,9 +418,17 @@ def run_maps(prop, spec, seed, tier, known, ev):
         reqs.append({"id": "lay-%d" % i, "cfg": dict(vlib.DEFAULT_CFG, comments=g.chance(1, 2)), "src": layout_program(g),
                      "file": g.choice(["test.js", "dir/sub/file.js", "/abs/é/mod.js"]), "tags": ['layout']})
     reqs += gen.gen_requests(r.next(), n - n // 2, cfg_mode='mixed')
-    for q in reqs:
+    for k, q in enumerate(reqs):
         q.update({"maps": True, "text_ast": True})
         q['cfg'] = dict(q['cfg'] or {}, chainSourceMap=False)
+        if k % 6 == 5:
+            # chaining asked for, but the map the file refers to cannot be had (no such file, not a map, an
+            # index map): the plain map of this rewrite must still be embedded, and be right
+            g = r.fork()
+            ref = g.choice(["missing.map", "data:application/json;base64,bm90IGpzb24=", "sub/none.js.map", "data:application/json;base64,"])
+            q['src'] = q['src'] + g.choice(["\n//# sourceMappingURL=" + ref, "\n//# sourceMappingURL=" + ref + "\n", "\n/*# sourceMappingURL=" + ref + " */"])
+            q['cfg'] = dict(q['cfg'], chainSourceMap=True, comments=g.chance(1, 2))
+            q['tags'] = list(q.get('tags', [])) + ['chain-on-unusable-reference']
     results = vlib.pipeline(reqs, mode='maps')
     vio_big = periodic_large_file(r.fork(), tier)
     out = _collect(prop, spec, results, known, ev, 'modified files whose embedded map was decoded with the verified decoder: layout stress programs '
@@ -542,14 +552,28 @@ def run_chain(prop, spec, seed, tier, known, ev):
         cfg = dict(vlib.DEFAULT_CFG, chainSourceMap=g.chance(3, 4), comments=g.chance(1, 2))
         reqs.append({"id": "chain-%d" % i, "cfg": cfg, "src": src, "file": file, "files": files, "maps": True,
                      "text_ast": True, "code_ast": True, "tags": ['chain', 'ref%d' % kind, 'style%d' % style]})
+        if kind in (1, 2, 3, 4, 5):
+            reqs[-1]["supplied_map"] = m
     results = vlib.pipeline(reqs, mode='chain')
     # the requests of one chunk run one after the other in one process: record what ran just before (a replay needs it
     # when the failure depends on an earlier call)
     for i, q in enumerate(reqs):
         q['preceded_by'] = [{'src': p['src'], 'file': p['file']} for p in reqs[max(i - 3, (i // 400) * 400):i]]
-    return _collect(prop, spec, results, known, ev, 'modified programs with an original map (random token layouts, several sources, names, sourceRoot, '
+    out = _collect(prop, spec, results, known, ev, 'modified programs with an original map (random token layouts, several sources, names, sourceRoot, '
                     'sparse lines, segments without source) referenced inline / by relative or absolute file / missing / malformed / index map, '
                     'under {chain, comments} settings; non-trivial = a usable original map was chained')
+    # the original map the implementation reports to have loaded is the one this request supplied (same path, other
+    # content in an earlier request of the same process: nothing may be kept)
+    extra = []
+    compared = 0
+    for req, rec, v in results:
+        if rec.get('outcome') == 'ok' and rec.get('orig_map') and rec.get('supplied_tokens'):
+            compared += 1
+            if rec['orig_map'] != rec['supplied_tokens']:
+                extra.append(('C10:original-map-used-is-not-the-one-the-file-references', req, rec,
+                              'loaded %s... supplied %s...' % (json.dumps(rec['orig_map'])[:160], json.dumps(rec['supplied_tokens'])[:160])))
+    ev['coverage']['original_map_identity_compared'] = compared
+    return (out[0] + extra,) + tuple(out[1:])
 
 
 def _collect(prop, spec, results, known, ev, rule):
